@@ -77,6 +77,20 @@ func unhex(s string) []byte {
 	return b
 }
 
+// scribble overwrites a buffer the way a caller reusing it would: the staged store must not alias caller memory.
+func scribble(b []byte) {
+	for i := range b {
+		b[i] ^= 0x5a
+	}
+}
+
+func scribbleKVs(l []db.KeyValue) {
+	for _, kv := range l {
+		scribble(kv.Key())
+		scribble(kv.Value())
+	}
+}
+
 func rkey(r *hx.Rng, maxLen int) []byte {
 	n := r.Intn(maxLen + 1)
 	k := make([]byte, n)
@@ -228,20 +242,37 @@ func runOps(c *OpsCase) {
 			s := views[o.V]
 			switch o.O {
 			case "get":
-				v, ok := s.Get(unhex(o.A))
+				k := unhex(o.A)
+				v, ok := s.Get(k)
 				if ok {
 					o.Res = hx2(v)
 				}
+				scribble(k)
+				scribble(v) // a caller may reuse its buffers and overwrite what it received
 			case "has":
 				o.Res = s.Has(unhex(o.A))
 			case "set":
-				s.Set(unhex(o.A), unhex(o.X))
+				k, v := unhex(o.A), unhex(o.X)
+				s.Set(k, v)
+				scribble(k)
+				scribble(v)
 			case "del":
-				s.Del(unhex(o.A))
+				k := unhex(o.A)
+				s.Del(k)
+				scribble(k)
 			case "range":
-				o.Res = kvList(s.Range(unhex(o.A), unhex(o.B), o.L, o.R))
+				a, b := unhex(o.A), unhex(o.B)
+				res := s.Range(a, b, o.L, o.R)
+				o.Res = kvList(res)
+				scribble(a)
+				scribble(b)
+				scribbleKVs(res)
 			case "iter":
-				o.Res = kvList(s.Iterate(unhex(o.A), o.L, o.R))
+				a := unhex(o.A)
+				res := s.Iterate(a, o.L, o.R)
+				o.Res = kvList(res)
+				scribble(a)
+				scribbleKVs(res)
 			case "snap":
 				o.Res = s.Snapshot()
 			case "restore":
